@@ -6,7 +6,9 @@ cd /repo || exit 3
 git diff --quiet || { echo "repo not clean"; exit 3; }
 git apply --check "$D/patch.diff" 2>/dev/null || { echo "PATCH-DOES-NOT-APPLY $D"; exit 4; }
 git apply "$D/patch.diff"
-echo "== demo with change:"; (cd /repo && NUMBA_DISABLE_JIT=1 timeout 600 /venv/bin/python -W ignore "$D/demo.py" >/tmp/seed_demo.log 2>&1; echo "demo exit $?")
+# the demonstration is run from a neutral directory against /repo (python puts the script's own directory first on sys.path)
+rm -rf /tmp/seedrun; mkdir -p /tmp/seedrun; cp "$D/demo.py" /tmp/seedrun/demo.py
+echo "== demo with change:"; (cd /repo && PYTHONPATH=/repo NUMBA_DISABLE_JIT=1 timeout 900 /venv/bin/python -W ignore /tmp/seedrun/demo.py >/tmp/seed_demo.log 2>&1; echo "demo exit $?")
 echo "== check $P with change:"; (cd /verif && timeout 3000 ./check "$P" --tier "$T" > /tmp/seed_check.log 2>&1; echo "check exit $?"; grep -E "VIOLATION|failed obligation|CHECKER|UNDECIDED" /tmp/seed_check.log | head -8; tail -1 /tmp/seed_check.log | cut -c1-200)
 git -C /repo checkout -- . ; git -C /repo status --short | head -3
-echo "== demo without change:"; (cd /repo && NUMBA_DISABLE_JIT=1 timeout 600 /venv/bin/python -W ignore "$D/demo.py" >/tmp/seed_demo0.log 2>&1; echo "demo exit $?")
+echo "== demo without change:"; (cd /repo && PYTHONPATH=/repo NUMBA_DISABLE_JIT=1 timeout 900 /venv/bin/python -W ignore /tmp/seedrun/demo.py >/tmp/seed_demo0.log 2>&1; echo "demo exit $?"); rm -rf /tmp/seedrun
